@@ -218,6 +218,7 @@ func (t *Torrent) WritePiece(src storage.PieceReader, pi int) error {
 		return errWritePieceConflict
 	}
 
+	verifYield("writePiece.beforeClaim", pi)
 	dirty, complete := piece.tryMarkDirty()
 	if dirty {
 		return errWritePieceConflict
